@@ -584,7 +584,7 @@ class CachingQPSol:
                 c = ca.substitute(gf, x, ca.DM.zeros(x.sparsity()))
 
                 # Identify the quadratic term in the objective
-                H = 0.5 * ca.jacobian(gf, x, {"symmetric": True})
+                H = ca.jacobian(gf, x, {"symmetric": True})
 
                 if cache:
                     if not x.size1() == cache["A"].size2():
